@@ -95,7 +95,7 @@ Definition endpoint_kind_b (e : endpoint) : N :=
   end.
 Definition wf_question_b (q : question) : bool :=
   match q with
-  | QSession e _ => N.eqb (endpoint_kind_b e) 0
+  | QSession e _ _ => N.eqb (endpoint_kind_b e) 0
   | QGroups e _ _ => N.eqb (endpoint_kind_b e) 1
   | QToken e _ => N.eqb (endpoint_kind_b e) 2
   end.
